@@ -66,25 +66,44 @@ class VirtualLocale:
         return self._key(s)
 
 
+def real_lock_is_reentrant():
+    import elementpath.collations as C
+    real = _REAL.get('lock', C._locale_collate_lock)
+    return isinstance(real, type(threading.RLock()))
+
+
 class TrackedLock:
+    """stands in for the library's lock and mirrors its kind: re-entrant iff the real one is a threading.RLock"""
+
     def __init__(self, sched=None):
         self.owner = None
         self.sched = sched
         self.acquired = 0
+        self.depth = 0
+        self.reentrant = real_lock_is_reentrant()
 
     def acquire(self, blocking=True, timeout=-1):
         me = threading.get_ident()
+        if self.reentrant and self.owner == me:
+            self.depth += 1
+            return True
         if self.sched is not None:
-            return self.sched.lock_acquire(self, me)
+            r = self.sched.lock_acquire(self, me)
+            self.depth = 1
+            return r
         if self.owner is not None:
             raise HarnessDeadlock('collation lock is already held: this call would block forever')
         self.owner = me
+        self.depth = 1
         self.acquired += 1
         return True
 
     def release(self):
         if self.owner is None:
             raise RuntimeError('release unlocked lock')
+        self.depth -= 1
+        if self.depth > 0:
+            return
         self.owner = None
         if self.sched is not None:
             self.sched.lock_released(self)
@@ -164,6 +183,16 @@ def all_ops():
                        ('contains', "contains('xAy', 'a')"), ('max', "max(('b', 'A'))")):
         ops.append({'kind': 'default', 'f': fname, 'c': 'parser-default', 'src': src, 'ver': '3.1'})
         ops.append({'kind': 'default-new-parser', 'f': fname, 'c': 'new-parser-default', 'src': src, 'ver': '3.1'})
+    # a collation-using call whose operand is itself a collation-using call (evaluated while the outer lock is held)
+    for i, (outer, inner) in enumerate([('uca-de', 'uca-ci'), ('uca-de', 'uca-de'), ('bare-de', 'uca-qq-fallback'), ('uca-ci', 'uca-qq-nofallback'),
+                                        ('codepoint', 'uca-de'), ('uca-de', 'codepoint')]):
+        co, ci = dict(COLLATIONS)[outer], dict(COLLATIONS)[inner]
+        ops.append({'kind': 'literal', 'f': 'nested-index-of', 'c': 'nested:%s>%s' % (outer, inner),
+                    'src': "index-of((compare('a', 'B', %s), 1), -1, %s)" % (ci, co), 'ver': '3.1'})
+        ops.append({'kind': 'variable', 'f': 'nested-distinct-values', 'c': 'nested:%s>%s' % (outer, inner),
+                    'src': "distinct-values((string(compare($a, $b, %s)), 'x'), $c)" % ci, 'cval': co.strip("'"), 'ver': '3.1'})
+        ops.append({'kind': 'literal', 'f': 'nested-sort', 'c': 'nested:%s>%s' % (outer, inner),
+                    'src': "sort(('b', 'A'), %s, function($x) { if (compare($x, 'a', %s) = 0) then 'a' else $x })" % (co, ci), 'ver': '3.1'})
     # regular-expression evaluations: they use the process-wide lazy Unicode subset cache (\\s \\d \\w \\i \\c, \\p{..})
     for i, src in enumerate(REGEX_OPS):
         ops.append({'kind': 'regex', 'f': 'regex', 'c': 'r%d' % i, 'src': src, 'ver': '3.1'})
